@@ -27,7 +27,7 @@ def run(ctx, res):
     # private number token switches to number mode (shared with C17)
     from . import C17
     res.rules_run.append("C16.map (SerializeMap::serialize_key / serialize_value / end: ordinary entries are inserted in order; number mode only for an empty object + the private token) = C17.handshake")
-    C17.handshake_rule(ctx, res)
+    C17.handshake_rule(ctx, res, rule="C16.map", dedup=False)
     res.notes.append("not decided: bit-exact float and integer round trip, and equality with serde_json::to_value on numbers (json-number / ryu / lexical)")
     res.trusted += ["serde's derive and blanket impls (Serialize for bool / &T, Deserialize for primitives)", "json-number's From<integer> / TryFrom<float> / Deserializer for NumberBuf", "serde_json's documented data-model mapping (table in this file)"]
 
